@@ -84,6 +84,7 @@ type caseSpec struct {
 	impostor bool   // stdlib SCRAM server that accepts any proof and forges the server signature
 	wrongCreds bool // the credential table says the pair is wrong (after normalisation)
 	addr     string // address to dial ("" = broker1:9092); a non-numeric port makes splitHostPortNumber fail
+	noLimit  bool   // Dialer only: no Timeout, no Deadline, and the caller's context has no deadline
 	tlsFail  bool   // the peer answers the ClientHello with something that is not TLS: the dial must fail and close its socket
 	tls      bool   // Dialer.TLS / Transport.TLS set: the fake broker sits behind TLS and notes what reaches its socket first
 }
@@ -499,6 +500,13 @@ func runCase(c caseSpec) (res caseResult, skip string) {
 	}
 	ctx, cancel := context.WithTimeout(context.Background(), 20*time.Second)
 	defer cancel()
+	if c.noLimit {
+		// no time limit anywhere: Dialer.Timeout 0, Dialer.Deadline zero, a context that can only be cancelled.  (A dial
+		// that hangs is ended by the fake broker, which gives up on a silent client after 1.5 s.)
+		var cancel3 context.CancelFunc
+		ctx, cancel3 = context.WithCancel(context.Background())
+		defer cancel3()
+	}
 
 	settle := func(lg *connLog, failed bool) bool {
 		if failed {
@@ -626,6 +634,9 @@ func emitCase(c caseSpec, res caseResult) {
 			cl = 1
 		}
 		path := c.path
+		if c.noLimit {
+			path += "~nolimit"
+		}
 		if c.tls {
 			path += "+tls"
 		}
@@ -751,6 +762,12 @@ func main() {
 			caseSpec{path: path, hs: hsChoices[0], au: hsChoices[0], mech: "none", mechFail: -1, tls: true, tlsFail: true})
 		cases = append(cases, caseSpec{path: path, hs: hsChoices[0], au: hsChoices[0], mech: "none", mechFail: -1, tls: true},
 			caseSpec{path: path, hs: hsChoices[0], au: hsChoices[0], mech: "plain", user: "u", pass: "p", srvUser: "u", srvPass: "p", mechFail: -1, addr: "broker1:kafka", tls: true})
+	}
+	// every second Dialer case runs without any time limit (the scripted silence needs one)
+	for i := range cases {
+		if cases[i].path == "dialer" && cases[i].failKind != "silent" && i%2 == 0 {
+			cases[i].noLimit = true
+		}
 	}
 	_ = thorough
 	leaks := 0
